@@ -384,6 +384,58 @@ def assert_repo_import():
         raise RuntimeError(f"neuroglancer_scripts imported from {here}, not from {paths.REPO_SRC}")
 
 
+def anchor_files(prop):
+    """source files the property is anchored in (properties.jsonl)"""
+    try:
+        with open(os.path.join(paths.VERIF, "properties.jsonl")) as f:
+            for line in f:
+                d = json.loads(line)
+                if d.get("id") == prop:
+                    return [os.path.join(paths.REPO, p) for p in d["anchors"]["files"]]
+    except (OSError, KeyError, ValueError):
+        pass
+    return []
+
+
+def start_anchor_coverage(ctx):
+    """thorough tier: measure which lines of the anchored files the generated cases execute (in-process only)"""
+    if ctx.tier != "thorough" or os.environ.get("NGV_NO_COVERAGE"):
+        return None
+    files = [p for p in anchor_files(ctx.prop) if os.path.isfile(p)]
+    if not files:
+        return None
+    try:
+        import coverage
+        cov = coverage.Coverage(data_file=None, include=files, branch=False)
+        cov.start()
+        return cov, files
+    except Exception as exc:  # noqa
+        ctx.notes.append(f"coverage measurement unavailable: {type(exc).__name__}")
+        return None
+
+
+def stop_anchor_coverage(ctx, handle):
+    if handle is None:
+        return
+    cov, files = handle
+    try:
+        cov.stop()
+        out = {}
+        for p in files:
+            try:
+                _, statements, _, missing, _ = cov.analysis2(p)
+            except Exception:  # noqa
+                continue
+            n = len(statements)
+            if n:
+                out[os.path.relpath(p, paths.REPO)] = "%.1f%% (%d of %d statements; in-process runs only)" % (
+                    100.0 * (n - len(missing)) / n, n - len(missing), n)
+        if out:
+            ctx.stats["anchor_line_coverage"] = out
+    except Exception as exc:  # noqa
+        ctx.notes.append(f"coverage measurement failed: {type(exc).__name__}")
+
+
 def run_check(prop, tier, seed, module, replay=None):
     ctx = Ctx(prop, tier, seed)
     ctx.rule = getattr(module, "RULE", "")
@@ -397,11 +449,14 @@ def run_check(prop, tier, seed, module, replay=None):
     else:
         import contextlib
         import io as _io
+        cov = start_anchor_coverage(ctx)
         try:
             with contextlib.redirect_stdout(_io.StringIO()):   # the package prints progress notes
                 module.run(ctx)
         except DriverError as exc:
             ctx.tie_breaks.append(f"driver:{exc}")
+        finally:
+            stop_anchor_coverage(ctx, cov)
         # tie broken, no oracle failure yet: focused search on the real code
         if (ctx.tie_breaks or ctx.corr_mismatches) and not ctx.oracle_failures:
             ctx.search_mode = True
